@@ -680,8 +680,9 @@ func (w *world) classifyExtra(who, jti string) string {
 // ageOnClient applies virtual time to C's copy: entries that expired in the model expire in C's table too.
 func (w *world) ageOnClient() {
 	past := time.Now().Add(-time.Hour).Unix()
-	for _, e := range w.m.cur {
-		if e.aged {
+	// every expired presentation of the current seed, also one that was replaced meanwhile: C may hold it or fetch it late
+	for _, e := range w.m.byJTI {
+		if e.aged && e.epoch == w.m.epoch {
 			w.cdb.Exec("UPDATE discovery_presentation SET presentation_expiration = ? WHERE service_id = ? AND presentation_id = ? AND presentation_expiration > ?", past, w.svc, e.jti, past)
 		}
 	}
@@ -1174,12 +1175,16 @@ func defects() []defect {
 		}},
 		{class: "retraction-of-superseded-id", build: func(w *world) (any, string, bool) {
 			// the subject's own earlier presentation that a refresh replaced
+			var pick *entry // the most recent one (map order must not decide)
 			for _, e := range w.m.byJTI {
-				if !e.current && e.epoch == w.m.epoch && !e.retraction {
-					for _, s := range w.subj {
-						if s.h.DID == e.subject {
-							return str(w.signVP(w.retractSpec(s, e.jti)))
-						}
+				if !e.current && e.epoch == w.m.epoch && !e.retraction && (pick == nil || e.seq > pick.seq) {
+					pick = e
+				}
+			}
+			if pick != nil {
+				for _, s := range w.subj {
+					if s.h.DID == pick.subject {
+						return str(w.signVP(w.retractSpec(s, pick.jti)))
 					}
 				}
 			}
